@@ -1,7 +1,53 @@
-import Driver.Proto
+import Driver.SC09
 namespace Driver
+open GbVerif GbVerif.Core
 
-/-- C04: per-step observable state of the same generated program in the recompiler build and in the interpreter build -/
+/-! C04: per-step observable state of the same generated program in the recompiler build and in the interpreter build,
+and (third leg) of the whole-machine model `Core.update / runCodeBlockInterp` over `Sys.dev`. -/
+
+/-- `s_c04::load`: zeroed ROM, `JP 0x0150` every 32 bytes (not in the last 16 bytes of a bank), then the program's patches -/
+def c04Rom (patches : String) (len : Nat) : Array Nat := Id.run do
+  let mut a := Array.replicate len 0
+  let mut i := 0x20
+  while i + 3 < len do
+    if i &&& 0x3fff < 0x3ff0 then
+      a := a.set! i 0xc3; a := a.set! (i + 1) 0x50; a := a.set! (i + 2) 0x01
+    i := i + 0x20
+  -- patches: `addr:hexbytes,addr:hexbytes,...` in program order (later patches win)
+  for seg in patches.splitOn "," do
+    match seg.splitOn ":" with
+    | [at_, bytes] =>
+      let mut k := parseNat at_
+      for b in parseBytes bytes do
+        if k < len then a := a.set! k b
+        k := k + 1
+    | _ => pure ()
+  return a
+
+def c04Digest (c : State) : UInt64 := Id.run do
+  let b := c.bus
+  let rd (a : Nat) : Nat := match Bus.read b a with | .ok v => v | .error _ => 0
+  let dma := match b.dma with | some (_, off) => off | none => 160
+  let vals := [c.regs.bc, c.regs.de, c.regs.hl, b.io.ifl, rd 0xffff, b.io.timer.counter, rd 0xff44, rd 0xff41, dma,
+               Cart.getRomBank b.cart, (if c.run == .Run then 1 else 0), imeCode c.ime]
+  let mut h := fnv0
+  for v in vals do
+    for i in [0:4] do h := fnv h ((v >>> (8 * i)) % 256)
+  return h
+
+/-- `ram_digest`: every bus byte 0x8000..0xFFFF outside the I/O block, then the cartridge RAM -/
+def c04RamDigest (c : State) : UInt64 := Id.run do
+  let b := c.bus
+  let mut h := fnv0
+  for a in [0x8000:0x10000] do
+    if !(a ≥ 0xff00 && a < 0xff80) then
+      h := fnv h (match Bus.read b a with | .ok v => v | .error _ => 0)
+  for v in b.cram do h := fnv h v
+  return h
+
+def hexOfBytes (bs : List Nat) : String :=
+  String.join (bs.map fun b => String.singleton (Nat.digitChar (b / 16)) ++ String.singleton (Nat.digitChar (b % 16)))
+
 def checkC04 (l : Line) : Verdict := Id.run do
   let sj := (l.outS "s").splitOn ";"
   let sn := (l.outS "n_s").splitOn ";"
@@ -15,6 +61,30 @@ def checkC04 (l : Line) : Verdict := Id.run do
   if l.outS "ram" != l.outS "n_ram" then return .specDiff "RAM digests (every 64 steps and final) differ between the two execution modes"
   if l.outS "fb" != l.outS "n_fb" then return .specDiff "frame buffer differs between the two execution modes"
   if l.outS "ser" != l.outS "n_ser" then return .specDiff s!"serial output differs: recompiler={l.outS "ser"} interpreter={l.outS "n_ser"}"
+  -- third leg: the whole-machine model, block-stepped like the harness (run_code_block while running, update when suspended)
+  if l.inS "rom" != "" then
+    let rom := c04Rom (l.inS "rom") (8 * 0x4000)
+    let bus := Bus.create .mbc1 8 32768 (fun i => rom.getD i 0)
+    let mut c : State := { regs := { af := 0x01b0, bc := 0x0013, de := 0x00d8, hl := 0x014d, sp := 0xfffe, ip := 0x0100 }, bus := bus,
+                           ime := .Disabled, run := .Run }
+    let rams := (l.outS "n_ram").splitOn ";"
+    k := 0
+    for s in sn do
+      match updateBlocks devSys c with
+      | .error _ => return .modelDiff s!"step {k}: model panics"
+      | .ok c' =>
+        c := c'
+        let got := s!"{c.regs.ip},{c.regs.af},{c.regs.sp},{c.bus.io.timer.cycleCount},{(c04Digest c).toNat}"
+        if got != s then
+          return .modelDiff s!"step {k}: (ip,af,sp,clocks,digest) model={got} impl={s}"
+      if k == 63 then
+        let d := toString (c04RamDigest c).toNat
+        if d != rams.getD 0 "" then return .modelDiff s!"RAM digest after 64 steps: model={d} impl={rams.getD 0 ""}"
+      k := k + 1
+    let d := toString (c04RamDigest c).toNat
+    if d != rams.getLastD "" then return .modelDiff s!"final RAM digest: model={d} impl={rams.getLastD ""}"
+    let ser := hexOfBytes c.bus.io.serialOut
+    if ser != l.outS "n_ser" then return .modelDiff s!"serial output: model={ser} impl={l.outS "n_ser"}"
   -- non-trivial: the program visited more than ten distinct block entry points
   let ips := sj.map fun s => (s.splitOn ",").headD ""
   return .ok ((ips.eraseDups).length > 10)
